@@ -27,3 +27,5 @@ LEVEL_NOTE = ("Proof is about the Gallina transcription of query.go/qpeerset.go;
 
 def classify(desc, code):
     return None
+
+RULE = RULE + (" Failing peers fail with a plain error, a wrapped context.Canceled or a wrapped context.DeadlineExceeded (a third each, a function of the peer id) while the lookup's own context is alive.")
